@@ -85,11 +85,27 @@ def emitValue (c : Codec) (v : Val) (g1 : StdGen) : String × StdGen :=
     | none => ("unenc " ++ showVal v, g1)
     | some f =>
       if f.bits.length > 1023 ∨ f.refs.length > 4 then ("unenc " ++ showVal v, g1) else
+      -- field boundaries of the top-level cell: (bits, refs) consumed after each read of the value's own trace at depth 0
+      let bounds : List (Nat × Nat) := ((c.trace v).foldl (fun (st : Nat × Nat × Nat × List (Nat × Nat)) ev =>
+        let (depth, kb, kr, acc) := st
+        match ev with
+        | .rd _ w => if depth == 0 then (depth, kb + w, kr, (kb + w, kr) :: acc) else st
+        | .enter => if depth == 0 then (1, kb, kr + 1, acc) else (depth + 1, kb, kr, acc)
+        | .leave => (depth - 1, kb, kr, acc)
+        | .rawref => if depth == 0 then (depth, kb, kr + 1, (kb, kr + 1) :: acc) else st
+        | _ => st) (0, 0, 0, [])).2.2.2
       let ((tb, tr), g2) := (do
         let nb ← gNat 0 (min 19 (1023 - f.bits.length))
         let tb ← gBits nb
         let nr ← gNat 0 (min 2 (4 - f.refs.length))
-        let tr := (List.range nr).map (fun i => Tlb.Cell.mk false (natToBits 9 (300 + i)) [])
+        -- a trailing reference is either a small unrelated cell or (every other time) a cell holding a SUFFIX of the encoding cut at a
+        -- field boundary - trailing data that is itself a well-formed piece of the type (an inline dictionary, a nested record), which a
+        -- parser that probes the next reference speculatively would mistake for part of the value
+        let tr ← (List.range nr).mapM (fun i => do
+          let pick ← gNat 0 (2 * bounds.length + 1)
+          match bounds[pick]? with
+          | some (kb, kr) => pure (Tlb.Cell.mk false (f.bits.drop kb) (f.refs.drop kr))
+          | none => pure (Tlb.Cell.mk false (natToBits 9 (300 + i)) []))
         pure (tb, tr) : Gen (Bits × List Tlb.Cell)).run g1
       let top := Tlb.Cell.mk false (f.bits ++ tb) (f.refs ++ tr)
       let (nodes, _) := flattenCell top #[]
